@@ -9,7 +9,7 @@ from mako.template import Template
 from mako import codegen
 
 for attempt in range(20):
-    d = tempfile.mkdtemp(dir="/tmp/hunt_c15_out")
+    d = tempfile.mkdtemp()
     src = os.path.join(d, "t.html"); mods = os.path.join(d, "mods")
     modpath = os.path.join(mods, src.lstrip("/") + ".py")
     calls = []
